@@ -202,7 +202,7 @@ def lean_lin(history_request):
     return "bad no answer"
 
 
-def explore(tier, seed, programs=None, with_traces=True):
+def explore(tier, seed, programs=None, with_traces=True, with_sections=True):
     """returns dict(executions, events, failures[list], rejects[list], traces, crashes[list], build_errors[list])"""
     rng = random.Random(seed * 7777 + 3)
     cfgs = CONFIGS_QUICK if tier == "quick" else CONFIGS_THOROUGH
@@ -239,7 +239,7 @@ def explore(tier, seed, programs=None, with_traces=True):
         c, p, runs, tf = j
         rc, res, tail, dt = run_program(bins[c][1], p, runs)
         ntr, rej, nh, lrej = lean_accept(tf) if with_traces else (0, [], 0, [])
-        nx, nsec, sbad = lean_sections(tf + ".sec") if with_traces else (0, 0, [])
+        nx, nsec, sbad = lean_sections(tf + ".sec") if (with_traces and with_sections) else (0, 0, [])
         for f_ in (tf, tf + ".sec"):
             try:
                 os.remove(f_)
